@@ -65,6 +65,24 @@ structure Keys where
   Kd : List Nat
   rounds : Nat
 
+/-- the `while t < ROUND_KEY_COUNT` loop: at most `fuel` passes -/
+def expandLoop (KC RKC : Nat) : Nat → List Nat × List Nat × Nat → Except Err (List Nat)
+  | 0, st => pure st.2.1
+  | fuel+1, st => if st.2.1.length < RKC then expandStep KC RKC st >>= expandLoop KC RKC fuel else pure st.2.1
+
+/-- `U1[(tt >> 24) & 0xFF] ^ U2[(tt >> 16) & 0xFF] ^ U3[(tt >> 8) & 0xFF] ^ U4[tt & 0xFF]` -/
+def uWord (tt : Nat) : Except Err Nat := do
+  pure ((← aidx U1 (byteOf tt 24)) ^^^ (← aidx U2 (byteOf tt 16)) ^^^ (← aidx U3 (byteOf tt 8)) ^^^
+        (← aidx U4 (byteOf tt 0)))
+
+/-- the decryption round keys: `Kd[ROUNDS - r] = Ke[r]` (row `r` of `Kd` is row `ROUNDS - r` of `Ke`),
+    then the inverse MixColumn (`U1..U4`) on rows 1 .. ROUNDS-1 -/
+def mkKd (W : List Nat) (ROUNDS : Nat) : Except Err (List Nat) := do
+  let rows ← (List.range (ROUNDS + 1)).mapM fun r =>
+    let row := (W.drop (4 * (ROUNDS - r))).take 4
+    if 1 ≤ r ∧ r < ROUNDS then row.mapM uWord else pure row
+  pure rows.flatten
+
 /-- `Rijndael.__init__(key, 16)` -/
 def init (key : Bytes) : Except Err Keys :=
   if key.length ≠ 16 ∧ key.length ≠ 24 ∧ key.length ≠ 32 then .error .value else do
@@ -74,18 +92,9 @@ def init (key : Bytes) : Except Err Keys :=
     let KC := key.length / 4
     let tk ← (List.range KC).mapM (wordAt key)
     -- first copy, then at most RKC passes of the evolution loop
-    let rec loop : Nat → List Nat × List Nat × Nat → Except Err (List Nat)
-      | 0, st => pure st.2.1
-      | fuel+1, st => if st.2.1.length < RKC then expandStep KC RKC st >>= loop fuel else pure st.2.1
-    let W ← loop RKC (tk, tk.take RKC, 0)
-    -- Kd[ROUNDS - r] = Ke[r]; inverse MixColumn on rounds 1 .. ROUNDS-1
-    let Kd0 := (List.range (ROUNDS + 1)).flatMap fun r => (W.drop (4 * (ROUNDS - r))).take 4
-    let Kd ← (List.range (ROUNDS + 1)).mapM fun r => ((Kd0.drop (4*r)).take 4).mapM fun tt =>
-      if 1 ≤ r ∧ r < ROUNDS then do
-        pure ((← aidx U1 (byteOf tt 24)) ^^^ (← aidx U2 (byteOf tt 16)) ^^^ (← aidx U3 (byteOf tt 8)) ^^^
-              (← aidx U4 (byteOf tt 0)))
-      else pure tt
-    pure { Ke := W, Kd := Kd.flatten, rounds := ROUNDS }
+    let W ← expandLoop KC RKC RKC (tk, tk.take RKC, 0)
+    let Kd ← mkKd W ROUNDS
+    pure { Ke := W, Kd := Kd, rounds := ROUNDS }
 
 /-- one word of a table round:
     `a[i] = (A[(t[i]>>24)&0xFF] ^ B[(t[(i+s1)%BC]>>16)&0xFF] ^ C[(t[(i+s2)%BC]>>8)&0xFF] ^ D[t[(i+s3)%BC]&0xFF]) ^ K[r][i]` -/
@@ -189,22 +198,24 @@ def invMixColumns (s : State) : State :=
      gmul 11 (a 0) ^^^ gmul 13 (a 1) ^^^ gmul 9 (a 2) ^^^ gmul 14 (a 3)]
 def addRoundKey (s k : State) : State := xorBytes s k
 
+/-- §5.2 one iteration of the KeyExpansion loop: `temp = w[i-1]`, RotWord/SubWord/Rcon every Nk words,
+    the extra SubWord for Nk > 6, `w[i] = w[i-Nk] xor temp`; the accumulator carries Rcon[i/Nk] -/
+def kstep (nk : Nat) (acc : List (List UInt8) × UInt8) (i : Nat) : List (List UInt8) × UInt8 :=
+  let w := acc.1
+  let prev := w.getD (i - 1) []
+  let tr : List UInt8 × UInt8 :=
+    if i % nk = 0 then
+      (xorBytes ((prev.drop 1 ++ prev.take 1).map sbox) [acc.2, 0, 0, 0], xtime acc.2)
+    else if nk > 6 ∧ i % nk = 4 then (prev.map sbox, acc.2)
+    else (prev, acc.2)
+  (w ++ [xorBytes (w.getD (i - nk) []) tr.1], tr.2)
+
 /-- §5.2 KeyExpansion: the list of 4-byte words w[0 .. 4(Nr+1)) -/
 def keyExpansion (key : Bytes) : List (List UInt8) :=
   let nk := key.length / 4
   let nr := nk + 6
   let w0 := (List.range nk).map fun i => (key.drop (4*i)).take 4
-  let step (acc : List (List UInt8) × UInt8) (i : Nat) : List (List UInt8) × UInt8 :=
-    let w := acc.1
-    let prev := w.getD (i - 1) []
-    let (temp, rc) :=
-      if i % nk = 0 then
-        let r := (prev.drop 1 ++ prev.take 1).map sbox
-        ((xorBytes r [acc.2, 0, 0, 0]), xtime acc.2)
-      else if nk > 6 ∧ i % nk = 4 then (prev.map sbox, acc.2)
-      else (prev, acc.2)
-    (w ++ [xorBytes (w.getD (i - nk) []) temp], rc)
-  ((List.range' nk (4 * (nr + 1) - nk)).foldl step (w0, 1)).1
+  ((List.range' nk (4 * (nr + 1) - nk)).foldl (kstep nk) (w0, 1)).1
 
 def roundKey (w : List (List UInt8)) (r : Nat) : State := ((w.drop (4*r)).take 4).flatten
 
@@ -219,14 +230,28 @@ def cipherRK (rk : Nat → State) (nr : Nat) (inp : Bytes) : Bytes :=
 def cipher (key inp : Bytes) : Bytes :=
   cipherRK (roundKey (keyExpansion key)) (key.length / 4 + 6) inp
 
+/-- §5.3 InvCipher, with the round keys given as a function of the round number -/
+def invCipherRK (rk : Nat → State) (nr : Nat) (inp : Bytes) : Bytes :=
+  let s := addRoundKey inp (rk nr)
+  let s := (List.range' 1 (nr - 1)).foldl (fun s k =>
+    invMixColumns (addRoundKey (invSubBytes (invShiftRows s)) (rk (nr - k)))) s
+  addRoundKey (invSubBytes (invShiftRows s)) (rk 0)
+
 /-- §5.3 InvCipher -/
 def invCipher (key inp : Bytes) : Bytes :=
-  let w := keyExpansion key
-  let nr := key.length / 4 + 6
-  let s := addRoundKey inp (roundKey w nr)
-  let s := (List.range' 1 (nr - 1)).foldl (fun s k =>
-    invMixColumns (addRoundKey (invSubBytes (invShiftRows s)) (roundKey w (nr - k)))) s
-  addRoundKey (invSubBytes (invShiftRows s)) (roundKey w 0)
+  invCipherRK (roundKey (keyExpansion key)) (key.length / 4 + 6) inp
+
+/-- §5.3.5 EqInvCipher: the inverse cipher in the order of the forward cipher, with the
+    decryption key schedule `dk` (dk r = InvMixColumns of round key Nr − r for 0 < r < Nr) -/
+def eqInvCipherRK (dk : Nat → State) (nr : Nat) (inp : Bytes) : Bytes :=
+  let s := addRoundKey inp (dk 0)
+  let s := (List.range' 1 (nr - 1)).foldl (fun s r =>
+    addRoundKey (invMixColumns (invShiftRows (invSubBytes s))) (dk r)) s
+  addRoundKey (invShiftRows (invSubBytes s)) (dk nr)
+
+/-- §5.3.5 the modified key schedule -/
+def dkOf (rk : Nat → State) (nr : Nat) (r : Nat) : State :=
+  if 1 ≤ r ∧ r < nr then invMixColumns (rk (nr - r)) else rk (nr - r)
 
 end Spec
 
